@@ -10,6 +10,7 @@ import common
 import compile_probe
 import corpus
 import run_probe
+import sem_probe
 import gen
 import proofs
 from common import VERIF, log
@@ -194,6 +195,9 @@ def check_c08_generator(res, cases):
             exp = c["tags"].get("expected_methods")
             if exp is None or r["nth"] != 0 or r.get("class") != "tokens" or r.get("kind") != "mod":
                 continue
+            v = r.get("C08")
+            if v and v[0] == "1" and v[1] == "0":
+                continue        # the output's shape was not understood: that is a broken tie (reported as such), not a wrong method list
             evals += 1
             if r.get("methods") != exp:
                 fails.append(([r], "generated trait methods %s differ from the generator's ground truth %s" % (r.get("methods"), exp)))
@@ -213,6 +217,8 @@ def check_c05_nested(res, cases):
                 inner = d[1]
                 if inner.get("kind") != "trait" or inner.get("class") != "tokens":
                     fails.append(([d[0], inner], "the nested expansion of a concrete-deps trait did not expand as a trait"))
+                elif inner.get("C06", "0")[:2] == "10":
+                    pass        # shape of the nested output not understood: a broken tie of C06, reported there and by alpha_C05
                 elif inner.get("C06", "0")[:3] not in ("111",):
                     fails.append(([d[0], inner], "the nested expansion does not forward Impl<T> to T (C06 predicate on the nested record)"))
     return evals, fails
@@ -288,6 +294,39 @@ def decide(prop, tier, seed, t0):
             violations.append((path, ""))
         elif missing and rp.get("rc", 0) != 0:
             path = write_replay(prop, "input", None, None, {"failing_predicate": "the run-time probe crate did not build / run", "output": rp.get("output_tail", "")[-1500:]})
+            violations.append((path, ""))
+    sem_info = None
+    if prop in sem_probe.PROPS:
+        # Layer B: accept / reject / run probes against the real compiler (availability of impls, visibility, Send,
+        # mock gating per build, allocation counts, hostile scopes, no_std, unimock wiring)
+        sp = sem_probe.sem_probe(seed, tier)
+        scases = {c["cid"]: c for c in sp["cases"]}
+        mine = [(int(cid), v) for cid, v in sp["results"].items() if v["prop"] == prop]
+        bad = [(cid, v) for cid, v in mine if not v["ok"]]
+        undecided = [c for c in sp["cases"] if c["prop"] == prop and str(c["cid"]) not in sp["results"]]
+        sem_info = {"programs": len([c for c in sp["cases"] if c["prop"] == prop]), "decided": len(mine), "failed": len(bad),
+                    "must_compile": len([c for c in sp["cases"] if c["prop"] == prop and c["expect"] == "accept"]),
+                    "must_be_rejected": len([c for c in sp["cases"] if c["prop"] == prop and c["expect"] == "reject"]),
+                    "undecided": len(undecided), "builds_stuck": sp["stuck"], "by_family": {}}
+        for c in sp["cases"]:
+            if c["prop"] == prop:
+                fam0 = "/".join(c["family"].split("/")[:2])
+                sem_info["by_family"][fam0] = sem_info["by_family"].get(fam0, 0) + 1
+        extra_evals += len(mine)
+        if bad:
+            cid, v = min(bad, key=lambda x: len(scases[x[0]]["lib"] or "") + len(scases[x[0]]["lib_neg"] or ""))
+            c = scases[cid]
+            path = write_replay(prop, "input", None, None,
+                                {"failing_predicate": "semantic probe against the real compiler (harness/sem_probe.py): " + v["detail"][:600],
+                                 "expectation": c["expect"], "family": c["family"], "build": c["cfg"],
+                                 "program_that_must_compile": c["lib"], "client_that_must_be_rejected": c["lib_neg"] or c["bin_neg"],
+                                 "client_in_other_crate": c["bin"],
+                                 "other_failing_programs": len(bad) - 1,
+                                 "how_to_run": "harness/sem_probe.py assembles LIB_PRELUDE + `pub mod k%d { use crate::*; <program> }` into a lib crate depending on /repo (features unimock) and builds it (%s build)" % (cid, c["cfg"])})
+            violations.append((path, ""))
+        elif undecided:
+            path = write_replay(prop, "input", None, None, {"failing_predicate": "the semantic probe crate did not build for a reason that could not be attributed to a case",
+                                                            "unattributed": sp.get("unattributed", [])[:5], "builds": sp["stuck"]})
             violations.append((path, ""))
     compile_info = None
     compile_known = {}
@@ -422,7 +461,7 @@ def decide(prop, tier, seed, t0):
             "applicable_by_family": fam, "applicable_by_kind_outcome": kinds,
             "failing_on_impl": len(failing), "failing_in_known_classes": len(failing) - len(unknown),
             "tie_broken_cases": len(tie_broken), "cross_case_evaluations": extra_evals,
-            "corpus_stats": res["stats"], "corpus_key": res["key"], "compile_probe": compile_info, "run_probe": run_info,
+            "corpus_stats": res["stats"], "corpus_key": res["key"], "compile_probe": compile_info, "run_probe": run_info, "sem_probe": sem_info,
             "explanation": "proof = Coq theorems about the Gallina model; tie = every recorded invocation of the corpus is expanded by the extracted model and compared (token-exact) with the real macro's output, and the property's predicate is evaluated on the implementation's expansion",
         },
         "assumptions": ["rustc hands the macro syntactically valid items only", "syn 2.0.119 parse/print behaviour as re-implemented in coq/Syn.v",
